@@ -163,6 +163,8 @@ def make_matrix(rng, N, kind):
         A = rng.integers(0, 3, size=(N, N)).astype(float)
         D = np.triu(A, 1)
         D = D + D.T
+    elif kind == "ONES":
+        D = np.ones((N, N))              # the all-ones matrix the repository's tests install: the all-ties extreme
     elif kind == "M4":
         # ultrametric from a random hierarchical merge
         D = np.zeros((N, N))
@@ -194,3 +196,11 @@ def sizes(rng, tier, lo=2, quick_hi=40, thorough_hi=120):
     if r < 0.9:
         return int(rng.integers(lo, min(hi, 40) + 1))
     return int(rng.integers(lo, hi + 1))
+
+
+def boat():
+    """The repository's own test dataset (data/boat.csv: 100 rows, 3 classes, 2 features) — the workload of its test-suite."""
+    import os
+    path = os.path.join(os.environ.get("OPFMON_REPO", "/repo"), "data", "boat.csv")
+    A = np.loadtxt(path, delimiter=",")
+    return np.ascontiguousarray(A[:, 2:], dtype=float), A[:, 1].astype(int)
